@@ -110,4 +110,32 @@ PROPS = {
         "not_decided": ["reads the latest value written by the producer (C04 + link resolution)", "the user function itself",
                         "NodeBuilder::with_passive_inputs and TSDataObserverSet (notify-once) are not yet under contract"],
     },
+    "C15": {
+        "modules": ["contracts.c03_node", "contracts.c09_nested", "contracts.c02_graph_sched"],
+        "level": "proof",
+        "design_ref": "DESIGN.md section 8, C15",
+        "trusted_base": [
+            "scope.h fallback_on_exception / annotate_on_exception summaries (cxxvc/models.py)",
+            "write_node_error / write_try_except_error perform one move_value_from on the error output (their bodies are not under contract)",
+            "GraphView::evaluate / failed_node of the child follow evaluate_impl<Nested> / failed_node_impl",
+        ],
+        "assumptions": [],
+        "not_decided": ["streams of unrelated nodes identical to a fault-free run (relational)",
+                        "map_ per-key error attribution (map_node.cpp not under contract)"],
+    },
+    "C16": {
+        "modules": ["contracts.c16_push_queue", "contracts.c17_executor", "contracts.c02_graph_sched"],
+        "level": "proof",
+        "design_ref": "DESIGN.md section 8, C16",
+        "trusted_base": [
+            "std::mutex / condition_variable semantics; while a sender waits other threads only push within capacity, pop, or stop",
+            "std::deque<Value> as a window acc[head..tail) of an append-only history",
+            "Value identity is an opaque payload id; apply_delta applies exactly the value it is given (C20)",
+            "PushSourcePolicyAccess::emit_next dispatches to queue_policy_emit_next; MemoryUtils::cast returns the policy storage",
+        ],
+        "assumptions": ["the wake-flag protocol across threads (Owicki-Gries argument of DESIGN section 8) is carried by the "
+                        "verified atomic steps, not by a concurrent proof"],
+        "not_decided": ["liveness (every accepted value is delivered if the run continues)", "the C++ memory model",
+                        "conflating and burst policies", "PushSourceSenderControl"],
+    },
 }
